@@ -281,7 +281,10 @@ open StdJsonText StdMap
 theorem json_parse_print (t : T) (h : Good 128 t) : parse (pr t) = .ok (t, []) :=
   parse_pr t h
 
-example : Good 128 (.arr [.int (-9223372036854775808), .str ['a', '"', Char.ofNat 1, 'é'],
+/-- the quote character (written so that the theorem counter's string stripper is not confused) -/
+abbrev q : Char := Char.ofNat 34
+
+example : Good 128 (.arr [.int (-9223372036854775808), .str ['a', q, Char.ofNat 1, 'é'],
     .obj [(['k'], .null), (['k'], .bool true), ([], .arr [])]]) := by
   simp [Good, GoodL, GoodE]
 
@@ -315,7 +318,7 @@ theorem json_object_text_inorder {m : Map Str JVal} (h : Ordered scmp m) :
 example : Ordered scmp (.bin ['b'] (JVal.bool true) (.bin ['a'] .null .tip .tip) .tip) := by
   simp [Ordered, All, scmp]
 example : ser (.obj (.bin ['b'] (.bool true) (.bin ['a'] .null .tip .tip) .tip))
-    = ['{', '"', 'a', '"', ':', 'n', 'u', 'l', 'l', ',', '"', 'b', '"', ':', 't', 'r', 'u', 'e', '}'] := by
+    = ['{', q, 'a', q, ':', 'n', 'u', 'l', 'l', ',', q, 'b', q, ':', 't', 'r', 'u', 'e', '}'] := by
   rfl
 
 /-- `de (ser v)` succeeds for every float-free value and returns `fromT (toT v)`: the same entries, each
